@@ -10,6 +10,7 @@ import (
 	"crypto/sha256"
 	"encoding/hex"
 	"fmt"
+	"io"
 	"net/http"
 	"os"
 	"path/filepath"
@@ -41,6 +42,7 @@ type Config struct {
 	R2Starts  string   `json:"r2"`       // "" connected | "partitioned" | "absent" (not started until start:R2)
 	Alphabet  []string `json:"alphabet"` // event templates enabled (see Enabled)
 	Retention bool     `json:"retention"`
+	Backup    bool     `json:"backup"` // nodes are configured with a (dummy) backup client: retention must honour the high-water mark
 	// Prelude is a fixed event sequence applied (and checked) before the search starts: non-initial start states.
 	Prelude []string `json:"prelude,omitempty"`
 }
@@ -135,6 +137,9 @@ func (r *runner) setup() bool {
 	c.Compress = r.cfg.Compress
 	c.Defaults = func(cfg *lab.NodeConfig) {
 		cfg.DemoteDelay = 3 * time.Second
+		if r.cfg.Backup {
+			cfg.BackupClient = nopBackup{}
+		}
 	}
 	c.AddNode("P", true, nil)
 	c.AddNode("R1", true, nil)
@@ -436,6 +441,40 @@ func (r *runner) apply(ev string) bool {
 			d := p.DB(f[1])
 			r.record(f[1], d.Pos(), &oracle.Image{PageSize: r.cfg.PageSize})
 		}
+	case "age":
+		// age:<node>:<which> sets the mtime of LTX files of "a" far into the past. which: o(ldest) n(ewest) a(ll)
+		if n := r.c.Nodes[f[1]]; n.Running() && n.DB("a") != nil {
+			names := ltxNames(n.DB("a").LTXDir())
+			old := time.Now().Add(-24 * time.Hour)
+			for i, name := range names {
+				if f[2] == "a" || (f[2] == "o" && i == 0) || (f[2] == "n" && i == len(names)-1) {
+					_ = os.Chtimes(filepath.Join(n.DB("a").LTXDir(), name), old, old)
+				}
+			}
+		}
+	case "hwm":
+		// hwm:<node>:<rel> sets the high-water mark relative to the node's TXID: -1, 0, +1, or z for zero
+		if n := r.c.Nodes[f[1]]; n.Running() && n.DB("a") != nil {
+			db := n.DB("a")
+			t := uint64(db.Pos().TXID)
+			switch f[2] {
+			case "z":
+				db.SetHWM(0)
+			case "m":
+				if t > 0 {
+					db.SetHWM(ltx.TXID(t - 1))
+				}
+			case "e":
+				db.SetHWM(ltx.TXID(t))
+			case "p":
+				db.SetHWM(ltx.TXID(t + 1))
+			}
+		}
+	case "sweep":
+		// sweep:<node>:<retention> runs the retention sweep with retention 0 (disabled), 1ns or 10m.
+		if n := r.c.Nodes[f[1]]; n.Running() {
+			return r.sweep(n, f[2])
+		}
 	case "recover":
 		if p := r.c.Primary(); p != nil {
 			if err := p.Store.Recover(context.Background()); err != nil {
@@ -471,6 +510,104 @@ func (r *runner) apply(ev string) bool {
 	default:
 		r.res.Harness = "unknown event " + ev
 		return false
+	}
+	return true
+}
+
+type nopBackup struct{}
+
+func (nopBackup) URL() string { return "nop://" }
+func (nopBackup) PosMap(ctx context.Context) (map[string]ltx.Pos, error) {
+	return nil, fmt.Errorf("backup service unreachable")
+}
+func (nopBackup) WriteTx(ctx context.Context, name string, r io.Reader) (ltx.TXID, error) {
+	return 0, fmt.Errorf("backup service unreachable")
+}
+func (nopBackup) FetchSnapshot(ctx context.Context, name string) (io.ReadCloser, error) {
+	return nil, fmt.Errorf("backup service unreachable")
+}
+
+func ltxNames(dir string) []string {
+	ents, _ := os.ReadDir(dir)
+	var out []string
+	for _, e := range ents {
+		if strings.HasSuffix(e.Name(), ".ltx") {
+			out = append(out, e.Name())
+		}
+	}
+	sort.Strings(out)
+	return out
+}
+
+// sweep runs Store.EnforceRetention and checks which files it removed against the property's guards.
+func (r *runner) sweep(n *lab.Node, ret string) bool {
+	var d time.Duration
+	switch ret {
+	case "0":
+		d = 0
+	case "1ns":
+		d = time.Nanosecond
+	case "10m":
+		d = 10 * time.Minute
+	}
+	type fileInfo struct {
+		mtime time.Time
+		max   uint64
+	}
+	before := map[string]map[string]fileInfo{}
+	hwm := map[string]uint64{}
+	for _, db := range n.Store.DBs() {
+		m := map[string]fileInfo{}
+		for _, name := range ltxNames(db.LTXDir()) {
+			fi, err := os.Stat(filepath.Join(db.LTXDir(), name))
+			if err != nil {
+				continue
+			}
+			_, max, _ := ltx.ParseFilename(name)
+			m[name] = fileInfo{fi.ModTime(), uint64(max)}
+		}
+		before[db.Name()] = m
+		hwm[db.Name()] = uint64(db.HWM())
+	}
+	n.Store.Retention = d
+	now := time.Now()
+	if err := n.Store.EnforceRetention(context.Background()); err != nil {
+		r.viol("C09/retention-error", "%s: EnforceRetention: %v", n.Cfg.Name, err)
+	}
+	for _, db := range n.Store.DBs() {
+		after := map[string]bool{}
+		names := ltxNames(db.LTXDir())
+		for _, name := range names {
+			after[name] = true
+		}
+		var newest string
+		var all []string
+		for name := range before[db.Name()] {
+			all = append(all, name)
+		}
+		sort.Strings(all)
+		if len(all) > 0 {
+			newest = all[len(all)-1]
+		}
+		for _, name := range all {
+			fi := before[db.Name()][name]
+			if after[name] {
+				continue
+			}
+			// name was removed
+			who := n.Cfg.Name + "/" + db.Name()
+			if name == newest {
+				r.viol("C09/removed-newest", "%s: retention removed the newest transaction file %s", who, name)
+			}
+			if d <= 0 {
+				r.viol("C09/removed-while-disabled", "%s: retention is disabled (0) but %s was removed", who, name)
+			} else if !fi.mtime.Before(now.Add(-d)) {
+				r.viol("C09/removed-young", "%s: %s (mtime %s) is not older than the retention period %s at %s", who, name, fi.mtime, d, now)
+			}
+			if r.cfg.Backup && !(fi.max < hwm[db.Name()]) {
+				r.viol("C09/removed-unconfirmed", "%s: %s (max TXID %d) was removed although the backup high-water mark is %d", who, name, fi.max, hwm[db.Name()])
+			}
+		}
 	}
 	return true
 }
@@ -781,6 +918,21 @@ func (r *runner) enabled() []string {
 	if has("retain") {
 		out = append(out, "retain")
 	}
+	for _, n := range []string{"P", "R1"} {
+		if !r.c.Nodes[n].Running() {
+			continue
+		}
+		if has("age") {
+			// Ageing keeps modification times monotone in the TXID (as file creation order guarantees): the oldest file, or all files.
+			out = append(out, "age:"+n+":o", "age:"+n+":a")
+		}
+		if has("hwm") && r.cfg.Backup {
+			out = append(out, "hwm:"+n+":z", "hwm:"+n+":m", "hwm:"+n+":e", "hwm:"+n+":p")
+		}
+		if has("sweep") {
+			out = append(out, "sweep:"+n+":0", "sweep:"+n+":1ns", "sweep:"+n+":10m")
+		}
+	}
 	if has("demote") && p != nil {
 		out = append(out, "demote")
 	}
@@ -823,6 +975,9 @@ func (r *runner) stateKey() string {
 				if err != nil {
 					fmt.Fprintf(h, "ltx %s undecodable\n", e.Name())
 					continue
+				}
+				if fi, err := e.Info(); err == nil {
+					fmt.Fprintf(h, "old=%v ", fi.ModTime().Before(time.Now().Add(-time.Hour)))
 				}
 				hd := f.Header
 				fmt.Fprintf(h, "ltx %s pre=%x post=%x commit=%d pages=%d node=%x\n", e.Name(), uint64(hd.PreApplyChecksum), uint64(f.Trailer.PostApplyChecksum), hd.Commit, len(f.Pages), hd.NodeID)
